@@ -147,7 +147,8 @@ def monitor(ctx, st):
                 if r in ("<outside>", "<fd>"):
                     continue
                 parts = r.split(os.sep)
-                if "ascmhl" not in parts:
+                # history folders and temporary siblings of them (e.g. 'ascmhl.tmp') are the documented write area
+                if not any("ascmhl" in part for part in parts):
                     ctx.violate({"kind": "create-touched-media", "cmd": name, "cause": kind},
                                 f"{desc}: {kind} on {r}")
                     return
